@@ -15,8 +15,11 @@ import subprocess
 import sys
 
 HERE = os.path.dirname(os.path.abspath(__file__))
-COQ = os.path.join(HERE, "coq")
-OUT = os.path.join(HERE, "validate")
+VERIF = os.path.normpath(os.path.join(HERE, "..", ".."))
+SCRATCH = os.path.join(VERIF, "_build", "textlayer", "jsondoc")
+os.makedirs(SCRATCH, exist_ok=True)
+COQ = os.path.join(VERIF, "coq")
+OUT = SCRATCH
 SEED = int(sys.argv[1]) if len(sys.argv) > 1 else 20261001
 SCALE = float(sys.argv[2]) if len(sys.argv) > 2 else 1.0
 rnd = random.Random(SEED)
